@@ -349,6 +349,12 @@ func (s *supervisor) processGC() {
 		if cur.state == nodeStateDead || cur.state == nodeStateCanceled {
 			want[cur.dn()] = true
 		}
+		// So should a DONE node whose own context has been canceled (a group sibling died): it already returned
+		// and will never report back, but the children it started were killed by that cancel and would
+		// otherwise stay dead for as long as the supervisor lives.
+		if cur.state == nodeStateDone && cur.ctx.Err() != nil {
+			want[cur.dn()] = true
+		}
 
 		// If it should be restarted and is ready to be restarted...
 		if want[cur.dn()] && ready[cur.dn()] {
